@@ -10,7 +10,8 @@ Primitives are UNINTERPRETED symbols (only congruence and the listed size facts 
   bytes_xor(a, b)      (clause-language builtin) bytewise exclusive or of two strings of equal length: defined byte by byte when
                        the common length is fixed, otherwise a symbol of which only the length is known
   romix(N, block)      scryptROMix_{Salsa20/8}(r = len(block)/128, block, N)   (RFC 7914 section 5; C code, bounded)
-  eksblowfish(...)     bcrypt's EksBlowfish + 64 x ECB encryption               (C code, bounded)
+  eks_ecb(...)         ECB encryption under bcrypt's EksBlowfish key schedule   (C code, bounded)
+  bcrypt64 / _dec      bcrypt's radix-64 text encoding (string formatting outside PYVC's subset, bounded)
 
 The standards define their streams by recursion on the block index.  A recursive definition cannot be executed
 symbolically for a symbolic index, so those functions are symbols too and their DEFINING EQUATIONS (one unfolding step,
@@ -30,7 +31,18 @@ SIG = {
     'PRF': {'sort': 'bytes', 'uf': True},
     'H': {'sort': 'bytes', 'uf': True, 'facts': ['len(result) == hlen(alg)']},
     'romix': {'sort': 'bytes', 'uf': True, 'facts': ['len(result) == len(block)']},
-    'eksblowfish': {'sort': 'bytes', 'uf': True, 'facts': ['len(result) == len(constant)']},
+    # EncryptECB of `block` under the EksBlowfish key schedule (cost, salt, key); invert = OpenBSD's order of the two ExpandKey calls
+    'eks_ecb': {'sort': 'bytes', 'uf': True, 'facts': ['len(result) == len(block)']},
+    # bcrypt's radix-64 encoding (alphabet ./A-Za-z0-9, no padding): 4 characters per 3 bytes
+    'bcrypt64': {'sort': 'bytes', 'uf': True, 'facts': ['len(result) == (len(data) * 8 + 5) // 6']},
+    'bcrypt64_dec': {'sort': 'bytes', 'uf': True, 'facts': ['len(result) == (len(text) * 6) // 8']},
+    # the shape of a bcrypt string after "$2a$": two decimal digits, "$", 53 characters of the radix-64 alphabet
+    'bcrypt_fmt_ok': {'sort': 'bool', 'uf': True,
+                      'facts': ['ite(result, nth(h, 4), 48) >= 48', 'ite(result, nth(h, 4), 48) <= 57',
+                                'ite(result, nth(h, 5), 48) >= 48', 'ite(result, nth(h, 5), 48) <= 57', 'ite(result, nth(h, 6), 36) == 36']},
+    # keyed BLAKE2s-160 of the constant-time comparison; assumed injective in its data for the drawn key (left inverse)
+    'mac160': {'sort': 'bytes', 'uf': True, 'facts': ['mac160_inv(key, result) == data']},
+    'mac160_inv': {'sort': 'bytes', 'uf': True},
     # ---- RFC 5869 ---------------------------------------------------------------------------------------------------
     # T(0) = empty string;  T(n) = HMAC-Hash(PRK, T(n-1) | info | n)      (n a single octet: i2osp(n, 1) is the octet n mod 256,
     # and n <= 255 on the whole domain L <= 255*HashLen)
@@ -65,7 +77,8 @@ SIG = {
     # B'_0 || ... || B'_{n-1},  B'_i = scryptROMix(r, B_i, N),  B_i = b[128*r*i : 128*r*(i+1)]
     'scrypt_mix': {'sort': 'bytes', 'uf': True,
                    'facts': ['result == ite(n <= 0, b"", scrypt_mix(b, blen, N, n - 1) + romix(N, b[blen * (n - 1):blen * n]))']},
-    'is_pow2': 'bool', 'scrypt_params_ok': 'bool', 'scrypt': 'bytes',
+    'is_pow2_below_2_32': 'bool', 'scrypt_params_ok': 'bool', 'scrypt': 'bytes',
+    'bcrypt_key': 'bytes', 'bcrypt_raw': 'bytes', 'bcrypt_string': 'bytes', 'bcrypt': 'bytes', 'bcrypt_domain_ok': 'bool',
 }
 
 
@@ -90,7 +103,27 @@ def romix(N, block):
     pass
 
 
-def eksblowfish(password, cost, salt, constant, invert):
+def eks_ecb(key, cost, salt, invert, block):
+    pass
+
+
+def bcrypt64(data):
+    pass
+
+
+def bcrypt64_dec(text):
+    pass
+
+
+def bcrypt_fmt_ok(h):
+    pass
+
+
+def mac160(key, data):
+    pass
+
+
+def mac160_inv(key, tag):
     pass
 
 
@@ -175,18 +208,58 @@ def sp108_stream(fid, kin, label, context, lbits, n):
 
 
 # ====================================================================== RFC 7914
-def is_pow2(n):
-    """n is a power of two (n = 2^k, k >= 0), for n below 2^64: written without a loop"""
-    if n < 1:
-        return False
-    return pow2(ilog2(n)) == n
+def is_pow2_below_2_32(n):
+    """n = 2^k for some 1 <= k <= 31 (a power of 2 larger than 1 and below 2^32), written as the explicit finite set"""
+    return n in (2, 4, 8, 16, 32, 64, 128, 256, 512, 1024, 2048, 4096, 8192, 16384, 32768, 65536, 131072, 262144, 524288, 1048576,
+                 2097152, 4194304, 8388608, 16777216, 33554432, 67108864, 134217728, 268435456, 536870912, 1073741824, 2147483648)
 
 
 def scrypt_params_ok(N, r, p):
-    """RFC 7914 section 2 / 6: N a power of 2 larger than 1 (the library also admits N = 1) and less than 2^(128*r/8);
-    p <= ((2^32-1) * 32) / (128 * r).   The library documents the domain  N < 2^32  (a power of two)."""
-    return is_pow2(N) and N < 2 ** 32 and p <= ((2 ** 32 - 1) * 32) // (128 * r)
+    """RFC 7914 section 2: N larger than 1 and a power of 2; r, p positive; p <= ((2^32-1) * 32) / (128 * r).
+    Upper limit of N: the library documents N < 2^32 (RFC 7914 says N < 2^(128*r/8), which is the smaller bound only for r = 1)."""
+    if r < 1 or p < 1:
+        return False
+    return conj(is_pow2_below_2_32(N), p <= ((2 ** 32 - 1) * 32) // (128 * r))
 
 
 def scrypt_mix(b, blen, N, n):
     pass
+
+
+def scrypt(password, salt, N, r, p, dklen):
+    """section 6:  B[0] || ... || B[p-1] = PBKDF2-HMAC-SHA256 (P, S, 1, p * 128 * r);  B[i] = scryptROMix (r, B[i], N);
+    DK = PBKDF2-HMAC-SHA256 (P, B[0] || ... || B[p-1], 1, dkLen)"""
+    b = pbkdf2(0, 256, 32, password, salt, 1, p * 128 * r)
+    return pbkdf2(0, 256, 32, password, scrypt_mix(b, 128 * r, N, p), 1, dklen)
+
+
+# ====================================================================== bcrypt (Provos, Mazieres: "A Future-Adaptable Password Scheme", OpenBSD $2a$)
+def bcrypt_key(password):
+    """the key is the password as a C string (with its terminating NUL), limited to 72 bytes: a 72-byte password goes in
+    as is, a longer one is outside the domain"""
+    if len(password) < 72:
+        return password + b"\x00"
+    return password
+
+
+def bcrypt_raw(key, cost, salt, constant, invert):
+    """state = EksBlowfishSetup (cost, salt, key); ctext = constant; repeat (64) ctext = EncryptECB (state, ctext)"""
+    ctext = constant
+    for _ in range(64):
+        ctext = eks_ecb(key, cost, salt, invert, ctext)
+    return ctext
+
+
+def bcrypt_string(cost, salt, raw):
+    """"$2a$" || two decimal digits of the cost || "$" || radix64(16-byte salt) (22 characters) || radix64(first 23 bytes
+    of the 24-byte ciphertext) (31 characters): 60 characters"""
+    return b"$2a$" + bytes([48 + cost // 10, 48 + cost % 10]) + b"$" + bcrypt64(salt) + bcrypt64(raw[:23])
+
+
+def bcrypt(password, cost, salt):
+    return bcrypt_string(cost, salt, bcrypt_raw(bcrypt_key(password), cost, salt, b"OrpheanBeholderScryDoubt", True))
+
+
+def bcrypt_domain_ok(password, cost, salt_len):
+    """password without NUL and at most 72 bytes, cost in 4..31, 16-byte salt"""
+    return not (bytes(1) in password) and len(password) <= 72 and 4 <= cost and cost <= 31 and salt_len == 16
